@@ -49,6 +49,20 @@ static inline void qtext_append(qtext *x, qtext y) { *x = text_cat(*x, y); }
 static inline void qtext_prepend(qtext *x, qtext y) { *x = text_cat(y, *x); }
 static inline void qtext_clear(qtext *x) { *x = text_empty(); }
 static inline bool qtext_isEmpty(qtext x) { return x == 0; }
+/* size() / length(): the sum of the (unknown, positive) lengths of the chunks -- additive over concatenation by construction.
+   MODEL: one chunk has at most 2^27 characters, so a text of TEXT_K chunks stays below QString's own limit of 2^30. */
+int __CPROVER_uninterpreted_text_chunk_len(unsigned char atom);
+#define MAX_CHUNK_LEN (1 << 27)
+static inline int text_chunk_len(unsigned a) {
+  if (a == 0) return 0;
+  int l = __CPROVER_uninterpreted_text_chunk_len((unsigned char)a);
+  __CPROVER_assume(l >= 1 && l <= MAX_CHUNK_LEN);
+  return l;
+}
+static inline int qtext_size(qtext t) {
+  return text_chunk_len(T_AT(t, 0)) + text_chunk_len(T_AT(t, 1)) + text_chunk_len(T_AT(t, 2)) + text_chunk_len(T_AT(t, 3)) +
+         text_chunk_len(T_AT(t, 4)) + text_chunk_len(T_AT(t, 5)) + text_chunk_len(T_AT(t, 6)) + text_chunk_len(T_AT(t, 7));
+}
 
 /* ---------------------------------------------------------------- oracles */
 bool __CPROVER_uninterpreted_text_is_whitespace(qtext t);        /* trimmed().isEmpty() of a non-empty text */
@@ -146,4 +160,8 @@ static inline void ev_stanzaReceived(qdom e) {
   gh_stanza_cnt++; gh_ev_total++;
 }
 static inline void ev_streamClosed(void) { gh_closed_cnt++; gh_closed_pos = gh_ev_total; gh_ev_total++; }
+/* started(): the owner (QXmppOutgoingClient / incoming server) sends its stream header and from now on every read of this connection is
+   framed by processData.  The framing state at the moment of the emission is recorded. */
+unsigned gh_started_cnt; qtext gh_started_buffer, gh_started_cache;
+static inline void ev_started(qtext buffer, qtext cache) { gh_started_cnt++; gh_started_buffer = buffer; gh_started_cache = cache; }
 #endif
